@@ -26,7 +26,7 @@ pub fn plan(prop: &str, tier: Tier) -> Option<(&'static str, Vec<Job>)> {
         ],
         "C10" => vec![Job::new("creds", if q { 2400 } else { 24_000 })],
         "C11" => vec![
-            Job::new("journal-tamper", if q { 128 } else { 256 }).timeout(600).shrink(12),
+            Job::new("journal-tamper", if q { 128 } else { 64 }).timeout(600).shrink(12),
             Job::new("journal-sched", if q { 1600 } else { 40_000 }).shrink(60),
         ],
         "C04" => vec![Job::new("crash", if q { 480 } else { 8_000 }).caches(&["off", "big"]).timeout(600).shrink(40)],
